@@ -469,6 +469,9 @@ fn run(ctx: &mut Ctx) {
     if ctx.shard == 5 % ctx.nshards {
         odd_name_slice(ctx);
     }
+    if ctx.shard == 6 % ctx.nshards {
+        low_descriptor_slice(ctx);
+    }
 }
 
 /// Names that are not valid UTF-8 and names holding a newline. For the former only what every
@@ -573,6 +576,28 @@ fn odd_name_slice(ctx: &mut Ctx) {
     }
     let _ = std::env::set_current_dir(&ctx.sbx);
     let _ = crate::sandbox::force_remove(&w);
+}
+
+/// 150 directories with 64 file descriptors (see props/lowfd.rs): -regex answers for the last directory as for the first.
+fn low_descriptor_slice(ctx: &mut Ctx) {
+    use crate::props::lowfd;
+    let _ = lowfd::build(ctx);
+    let cases: Vec<(Vec<&str>, usize)> = vec![(vec!["lf", "-regex", ".*/d0[0-9][0-9]/f"], 100), (vec!["lf", "-iregex", ".*/D1[0-4][0-9]/[FL]"], 100), (vec!["lf", "-regextype", "posix-extended", "-regex", "lf/(d[0-9]+/)?(f|l)"], 300), (vec!["lf", "-regex", "lf/d149/l"], 1)];
+    for (args, want) in cases {
+        let o = lowfd::find(ctx, &args, 64, vec![]);
+        ctx.rep.evaluations += 1;
+        ctx.rep.nontrivial += 1;
+        ctx.rep.count("low_descriptor_limit_cases", 1);
+        let got = lowfd::lines(&o.out).len();
+        if o.died() || o.code != Some(0) || got != want {
+            ctx.rep.violation(
+                "C17 over 150 directories with 64 file descriptors: the later entries are not handled like the first",
+                format!("find {:?} under RLIMIT_NOFILE=64: {got} lines, expected {want}; status {:?}; stderr {:?}", args, o.code, String::from_utf8_lossy(&o.err).lines().take(2).collect::<Vec<_>>()),
+                json!({"prop":"C17","low_descriptor":true}),
+            );
+        }
+    }
+    lowfd::remove(ctx);
 }
 
 /// Longest run of c's in the exact zone / in the zone where a loud refusal is also accepted.
